@@ -1179,6 +1179,12 @@ func runCwScenario(t *testing.T, idx int, kind string, sc cwScenario, em *Emitte
 		return cwCaseCoq("CwWedged", sc, coqSteps, ws, wsS, rig)
 	}
 	em.Marker("begin", idx)
+	if os.Getenv("CW_SHARD") != "" && *flagOut != "" {
+		// for the parent: the scenario this process is in, should it die (panic in goat's code, runtime fatal error)
+		if b, err := json.Marshal(map[string]any{"idx": idx, "kind": kind, "scenario": sc}); err == nil {
+			os.WriteFile(*flagOut+".cur", b, 0o644)
+		}
+	}
 	var srvCancel context.CancelFunc
 	leaked := bubble(t, func(t *testing.T) {
 		link := NewLink(false)
@@ -1606,6 +1612,7 @@ func cwSharded(t *testing.T, testName string, n int) (int, int, bool) {
 		go func(i int) {
 			defer wg.Done()
 			from := *flagFrom
+			deaths := 0
 			for attempt := 0; attempt < 400; attempt++ {
 				cmd := exec.Command(os.Args[0], "-test.run", "^"+testName+"$", "-test.timeout", "0", "-out", outs[i],
 					"-seed", fmt.Sprint(*flagSeed), "-tier", *flagTier, "-from", fmt.Sprint(from))
@@ -1630,19 +1637,47 @@ func cwSharded(t *testing.T, testName string, n int) (int, int, bool) {
 						}
 					}
 				}
+				exit := -1
+				if ee, ok := err.(*exec.ExitError); ok {
+					exit = ee.ExitCode()
+				}
+				if exit == 3 && lastBegin >= from && lastBegin == lastEnd {
+					// the watchdog's exit: the wedged scenario's record and end marker are written
+					from = lastBegin + 1
+					continue
+				}
+				// The process DIED (panic in goat's code, runtime fatal error, kill): a failing case of its own, attributed
+				// to the scenario it was in - the one whose begin marker has no end marker; if it died after an end marker
+				// (a goroutine left behind by scenario lastEnd) to that scenario; if before any marker of this attempt, to
+				// the scenario it was about to run. The scenario itself (steps, tags) is in the record: it is the replay.
+				died := lastBegin
 				if lastBegin < from {
-					errs[i] = fmt.Errorf("shard %d: %v: %s", i, err, cwTail(string(out), 1500))
+					died = from
+				}
+				var cur struct {
+					Idx      int        `json:"idx"`
+					Kind     string     `json:"kind"`
+					Scenario cwScenario `json:"scenario"`
+				}
+				desc := map[string]any{"process-died": fmt.Sprintf("exit status %d", exit), "output": cwTail(string(out), 1500)}
+				tags := []string{"process-died"}
+				if b, e := os.ReadFile(outs[i] + ".cur"); e == nil && json.Unmarshal(b, &cur) == nil && cur.Idx == died {
+					desc["mode"], desc["steps"], desc["in-kind"] = cur.Scenario.Mode, cur.Scenario.Steps, cur.Kind
+					tags = append(tags, cur.Scenario.Tags...)
+				}
+				f, _ := os.OpenFile(outs[i], os.O_WRONLY|os.O_APPEND|os.O_CREATE, 0o644)
+				b, _ := json.Marshal(Rec{Idx: died, Kind: "process-died", Desc: desc, Tags: tags, Coq: "CwWedged ME2E [] [] [] []"})
+				if lastBegin == lastEnd || lastBegin < from {
+					fmt.Fprintf(f, "{\"marker\":\"begin\",\"idx\":%d}\n", died)
+				}
+				fmt.Fprintf(f, "%s\n{\"marker\":\"end\",\"idx\":%d}\n", b, died)
+				f.Close()
+				deaths++
+				if deaths >= 25 {
+					errs[i] = fmt.Errorf("shard %d: %d process deaths, giving up after scenario %d: %s", i, deaths, died, cwTail(string(out), 600))
 					return
 				}
-				if lastBegin != lastEnd {
-					// the process died inside scenario lastBegin: a failing case of that scenario
-					f, _ := os.OpenFile(outs[i], os.O_WRONLY|os.O_APPEND, 0o644)
-					b, _ := json.Marshal(Rec{Idx: lastBegin, Kind: "process-died", Desc: cwTail(string(out), 1500),
-						Tags: []string{"process-died"}, Coq: "CwWedged ME2E [] [] [] []"})
-					fmt.Fprintf(f, "%s\n{\"marker\":\"end\",\"idx\":%d}\n", b, lastBegin)
-					f.Close()
-				}
-				from = lastBegin + 1
+				from = died + 1
 			}
 		}(i)
 	}
@@ -1656,6 +1691,7 @@ func cwSharded(t *testing.T, testName string, n int) (int, int, bool) {
 			f.Write(b)
 		}
 		os.Remove(outs[i])
+		os.Remove(outs[i] + ".cur")
 	}
 	f.Close()
 	for _, e := range errs {
